@@ -10,6 +10,11 @@
 //!   adv <ns>             settle, tokio::time::advance(ns) (one turn of the time driver)
 //!   probe                settle, then record (now, target stopped?, is_finished of every handle)
 //!   open                 release the gate in the target's pre_start (only with the `S|` prefix)
+//!   popen                release the gate in the target's post_stop (only with the `G` flag)
+//! Flags before a `|`: `S` = instant-spawned target whose pre_start blocks on a gate (status
+//! Starting until `open`); `G` = the target's post_stop blocks on a gate (status Stopping, ports
+//! still open, until `popen` or a kill).  The harness also records when the target left the
+//! active states (drain() on an active target, entry of post_stop, or the exit event).
 //! A line starting with `S|` uses an instant-spawned target whose pre_start blocks on a gate, so
 //! the target is in status Starting (active, accepting) until `open`.
 //! or   calib <a> <b> <c>   sleep(b) created at time a: complete when polled at a+c? (true/false)
@@ -29,6 +34,7 @@ use tokio::time::Instant;
 struct Shared {
     log: Mutex<Vec<(u64, u64, u64)>>,
     exit: Mutex<Vec<(String, u64)>>,
+    left: Mutex<Option<u64>>,
     activity: AtomicU64,
 }
 
@@ -36,10 +42,18 @@ struct Ctx {
     sh: Arc<Shared>,
     start: Instant,
     gate: Option<Arc<tokio::sync::Semaphore>>,
+    pgate: Option<Arc<tokio::sync::Semaphore>>,
 }
 impl Ctx {
     fn now(&self) -> u64 {
         (Instant::now() - self.start).as_nanos() as u64
+    }
+    fn note_left(&self) {
+        let t = self.now();
+        let mut l = self.sh.left.lock().unwrap();
+        if l.is_none() {
+            *l = Some(t);
+        }
     }
 }
 
@@ -66,6 +80,15 @@ impl Actor for Tgt {
         st.sh.activity.fetch_add(1, Ordering::SeqCst);
         Ok(())
     }
+    async fn post_stop(&self, _: ActorRef<Msg>, st: &mut Arc<Ctx>) -> Result<(), ActorProcessingErr> {
+        st.note_left();
+        st.sh.activity.fetch_add(1, Ordering::SeqCst);
+        if let Some(g) = &st.pgate {
+            g.acquire().await.expect("pgate").forget();
+            st.sh.activity.fetch_add(1, Ordering::SeqCst);
+        }
+        Ok(())
+    }
 }
 
 struct Sup;
@@ -89,6 +112,7 @@ impl Actor for Sup {
             _ => None,
         };
         if let Some(r) = r {
+            st.note_left();
             st.sh.exit.lock().unwrap().push((r, st.now()));
             st.sh.activity.fetch_add(1, Ordering::SeqCst);
         }
@@ -164,15 +188,16 @@ async fn settle(sh: &Shared, hs: &[H], tgt: &ActorRef<Msg>) {
 }
 
 async fn scenario(line: &str) -> String {
-    let (parked, line) = match line.strip_prefix("S|") {
-        Some(rest) => (true, rest),
-        None => (false, line),
+    let (parked, gated, line) = match line.split_once('|') {
+        Some((flags, rest)) => (flags.contains('S'), flags.contains('G'), rest),
+        None => (false, false, line),
     };
     let start = Instant::now();
     let sh = Arc::new(Shared::default());
     let gate = if parked { Some(Arc::new(tokio::sync::Semaphore::new(0))) } else { None };
-    let sctx = Arc::new(Ctx { sh: sh.clone(), start, gate: None });
-    let ctx = Arc::new(Ctx { sh: sh.clone(), start, gate: gate.clone() });
+    let pgate = if gated { Some(Arc::new(tokio::sync::Semaphore::new(0))) } else { None };
+    let sctx = Arc::new(Ctx { sh: sh.clone(), start, gate: None, pgate: None });
+    let ctx = Arc::new(Ctx { sh: sh.clone(), start, gate: gate.clone(), pgate: pgate.clone() });
     let (sup, _sh) = Actor::spawn(None, Sup, sctx).await.expect("sup");
     let mut hs: Vec<H> = Vec::new();
     let (tgt, _keep): (ActorRef<Msg>, Box<dyn std::any::Any>) = if parked {
@@ -219,7 +244,15 @@ async fn scenario(line: &str) -> String {
             }
             "kill" => tgt.kill(),
             "drain" => {
+                if tgt.get_status() < ActorStatus::Draining {
+                    ctx.note_left();
+                }
                 let _ = tgt.drain();
+            }
+            "popen" => {
+                if let Some(g) = &pgate {
+                    g.add_permits(1);
+                }
             }
             "open" => {
                 if let Some(g) = &gate {
@@ -271,7 +304,11 @@ async fn scenario(line: &str) -> String {
         Some((r, t)) => format!("(Some ({r}, {t}))"),
     };
     assert!(ex.len() <= 1, "target reported more than one exit");
-    format!("mkObs {} {} {} {}", coq_list(&log), coq_list(&res), exit, coq_list(&probes))
+    let left = match *sh.left.lock().unwrap() {
+        None => "None".to_string(),
+        Some(t) => format!("(Some {t})"),
+    };
+    format!("mkObs {} {} {} {} {}", coq_list(&log), coq_list(&res), exit, coq_list(&probes), left)
 }
 
 /// Calibration of tokio's timer granularity: a sleep of `b` ns created at time `a`; is it
